@@ -12,24 +12,35 @@ open ClockBound
 theorem bound_bounds (t : Tracking) (h : applicable t 0 = true) :
     0 ≤ boundF t ∧ exactNs t * (1 - eps51) ≤ (boundF t : Rat) ∧
     (boundF t : Rat) < exactNs t * (1 + eps51) + 1 := by
-  sorry
+  obtain ⟨hs, hd, hE, _, _⟩ := applicable_spec h
+  exact boundF_bounds t hs hd hE
 
 /-- the bound depends on the magnitude of the offset only: flipping the sign of the wire
     coefficient of `current_correction` does not change it -/
 theorem sign_irrelevant (t t' : Tracking)
     (h : F64.chronyFloat t'.offW = - F64.chronyFloat t.offW)
     (hd : t'.dispW = t.dispW) (hl : t'.delayW = t.delayW) : boundF t' = boundF t := by
-  sorry
+  rw [boundF_def, boundF_def, h, hd, hl, absR_neg]
 
 /-- with the PHC error bound added (`bound_nsec += phc_error_bound`) -/
 theorem model_holds (t : Tracking) (phc : Int) : Holds t phc (boundF t + phc) = true := by
-  sorry
+  unfold Holds
+  cases ha : applicable t phc with
+  | false => rfl
+  | true =>
+    obtain ⟨hs, hd, hE, hp0, _⟩ := applicable_spec ha
+    obtain ⟨b0, bl, bu⟩ := boundF_bounds t hs hd hE
+    simp only [Bool.not_true, Bool.false_eq_true, if_false, Bool.and_eq_true, decide_eq_true_eq]
+    refine ⟨⟨by omega, ?_⟩, ?_⟩
+    · push_cast; linarith
+    · push_cast; linarith
 
 /-- the strict real-number reading `E ≤ bound` is false of the double-precision pipeline:
     known finding K2 (shortfall below 2^-51·E, here about 10^-7 ns) -/
 theorem strict_false :
     ∃ t : Tracking, applicable t 0 = true ∧ HoldsStrict t 0 (boundF t) = false := by
-  sorry
+  refine ⟨{ leap := 0, refNs := 0, offW := 0xee562947, dispW := 0x0893362c, delayW := 0x026bb816,
+            intervalW := 0 }, ?_, ?_⟩ <;> decide +kernel
 
 /-- non-vacuity: offset −7 ms, delay 100 ms, dispersion 20 ms gives 77 ms (not 63 ms) -/
 example : applicable { leap := 0, refNs := 0, offW := 4112162750, dispW := 4171486986, delayW := 4241280205, intervalW := 0 } 0 = true := by decide +kernel
